@@ -434,6 +434,7 @@ func apply(w *walk.Worker, ctx sdk.Context, e *graph.Edge, path []*graph.Edge, g
 	}
 	w.Count("act." + name)
 	faulty := false
+	supBefore := map[string]sdk.Int{}
 	switch name {
 	case "configure":
 		params := dtypes.Params{SubDistributors: s.buildCfg(s.cfgOf(exp))}
@@ -465,10 +466,16 @@ func apply(w *walk.Worker, ctx sdk.Context, e *graph.Edge, path []*graph.Edge, g
 			faults[graph.Str(f)] = true
 		}
 		faulty = len(faults) > 0
+		if faulty {
+			w.Count("block.faulty")
+		}
 		ctx = ctx.WithBlockHeight(ctx.BlockHeight() + 1).WithBlockTime(ctx.BlockTime().Add(5 * time.Second))
 		k := app.CfedistributorKeeper
 		if faulty {
 			k, _ = s.keeperWithFaults(faults)
+		}
+		for _, d := range s.denomsOf(g.States[e.From], exp) {
+			supBefore[d] = app.BankKeeper.GetSupply(ctx, d).Amount
 		}
 		if p := env.Try(func() { cfedistributor.BeginBlocker(ctx, k) }); p != "" {
 			fail("C10", "panic", "dist.beginblock.panic."+shapeOf(s.cfgOf(g.States[e.From])), "BeginBlocker panicked: "+p, "no panic", p)
@@ -513,6 +520,7 @@ func apply(w *walk.Worker, ctx sdk.Context, e *graph.Edge, path []*graph.Edge, g
 			msg = &dtypes.MsgUpdateSubDistributorDestinationShareParam{Authority: auth, SubDistributorName: graph.Str(u["sdname"]), DestinationName: graph.Str(u["dest"]), Share: s.dec(u["value"])}
 		}
 		outcome, detail, _, _ := s.env.Deliver(ctx, msg)
+		w.Count("outcome.update." + graph.Str(u["kind"]) + "." + outcome)
 		want := "rejected"
 		if graph.Bool(act["ok"]) {
 			want = "ok"
@@ -557,6 +565,15 @@ func apply(w *walk.Worker, ctx sdk.Context, e *graph.Edge, path []*graph.Edge, g
 		return ctx, fs, true
 	}
 	shape := shapeOf(s.cfgOf(exp))
+	// --- C01: in a block the supply of every denomination changes by exactly what the configuration burns
+	// (the model's balances before and after the block differ by the burned coins only)
+	for d, before := range supBefore {
+		want := s.modelTotal(exp, d) - s.modelTotal(g.States[e.From], d)
+		got := app.BankKeeper.GetSupply(ctx, d).Amount.Sub(before)
+		if got.String() != fmt.Sprint(want) {
+			fail("C01", "predicate", "dist.supply-delta."+shape, "supply change of "+d+" in the block differs from the configured burn", want, got.String())
+		}
+	}
 	// --- C03 on the real state itself (idle states only)
 	if graph.Str(exp["phase"]) == "dep" {
 		if msg := s.booksPredicate(o); msg != "" {
@@ -630,6 +647,10 @@ func apply(w *walk.Worker, ctx sdk.Context, e *graph.Edge, path []*graph.Edge, g
 				}
 				if want.Cmp(got) != 0 {
 					fail(owner, "mismatch", "dist.leftover."+shape, fmt.Sprintf("leftover of %s (%s) differs from the model", k, d), want.FloatString(18), got.FloatString(18))
+					if k == "BURN" {
+						// the burn leftover is the pending supply reduction: what is burned now or later is no longer what the configuration says
+						fail("C01", "mismatch", "dist.burn-leftover."+shape, fmt.Sprintf("burn leftover (%s) differs from the configured burn share of the inflow minus what was burned", d), want.FloatString(18), got.FloatString(18))
+					}
 				}
 			}
 		}
@@ -637,6 +658,31 @@ func apply(w *walk.Worker, ctx sdk.Context, e *graph.Edge, path []*graph.Edge, g
 		w.Count("inexact")
 	}
 	return ctx, fs, len(fs) > 0
+}
+
+func (s *state) denomsOf(states ...graph.M) []string {
+	set := map[string]bool{}
+	for _, st := range states {
+		for _, cm := range coinMap(st["bal"]) {
+			for d := range cm {
+				set[d] = true
+			}
+		}
+	}
+	var out []string
+	for d := range set {
+		out = append(out, d)
+	}
+	sort.Strings(out)
+	return out
+}
+
+func (s *state) modelTotal(st graph.M, d string) int64 {
+	var t int64
+	for _, cm := range coinMap(st["bal"]) {
+		t += cm[d]
+	}
+	return t
 }
 
 // shapeOf classifies a configuration for known-finding signatures.
